@@ -61,8 +61,9 @@ type Node struct {
 }
 
 type Item struct {
-	Name string `json:"name"` // hex; the name given to Store.Add, relative
-	Tree *Node  `json:"tree"`
+	Name    string `json:"name"` // hex; the name given to Store.Add, relative
+	Tree    *Node  `json:"tree"`
+	ViaLink bool   `json:"viaLink,omitempty"` // the added path is a symbolic link to the file or directory
 }
 
 type Scenario struct {
@@ -381,7 +382,7 @@ func genScenario(r *common.Rand, idx int) *Scenario {
 			t = genTree(r, big, bad)
 		}
 		trees = append(trees, t)
-		sc.Items = append(sc.Items, Item{Name: hx(nm), Tree: t})
+		sc.Items = append(sc.Items, Item{Name: hx(nm), Tree: t, ViaLink: r.Chance(1, 8)})
 	}
 	return sc
 }
@@ -466,6 +467,17 @@ func materialise(path string, n *Node, second bool) error {
 		}
 	}
 	return lutimes(path, mt)
+}
+
+// materialiseItem puts the item's tree at path, or next to it with a symbolic link at path.
+func materialiseItem(path string, it Item, second bool) error {
+	if !it.ViaLink {
+		return materialise(path, it.Tree, second)
+	}
+	if err := materialise(path+".real", it.Tree, second); err != nil {
+		return err
+	}
+	return os.Symlink(filepath.Base(path)+".real", path)
 }
 
 func special(m uint32) os.FileMode {
@@ -833,8 +845,11 @@ func runScenario(sc *Scenario) {
 		if err := os.MkdirAll(filepath.Dir(p), 0o755); err != nil {
 			panic(err)
 		}
-		if err := materialise(p, it.Tree, false); err != nil {
+		if err := materialiseItem(p, it, false); err != nil {
 			panic(fmt.Sprintf("materialise: %v", err))
+		}
+		if it.ViaLink {
+			run.Count("item-added-via-symlink")
 		}
 	}
 
@@ -929,6 +944,10 @@ func runScenario(sc *Scenario) {
 		})
 		run.Count(fmt.Sprintf("tree-nodes~%d", (nodes/8)*8))
 		// every header must carry the generator's data (independent of the model)
+		if it.ViaLink && len(ents) == 1 && ents[0].typ == "l" {
+			fail(id, "added-symlink-archived-as-link", fmt.Sprintf("Add(%q): the path is a symbolic link to a directory and the archive holds only that link (-> %q), not the directory", name, common.UnHex(ents[0].payload)))
+			continue
+		}
 		exp := expectTree(it.Tree, 0, true)
 		seen := map[string]bool{}
 		cleanName := filepath.ToSlash(filepath.Clean(name))
@@ -983,7 +1002,7 @@ func runScenario(sc *Scenario) {
 			name := unhx(it.Name)
 			p := filepath.Join(src2, name)
 			os.MkdirAll(filepath.Dir(p), 0o755)
-			if err := materialise(p, it.Tree, true); err != nil {
+			if err := materialiseItem(p, it, true); err != nil {
 				panic(err)
 			}
 			s1b, _ := file.New(src2)
@@ -1011,6 +1030,7 @@ func runScenario(sc *Scenario) {
 				run.Nontrivial("P " + string(d1.Digest))
 			}
 			os.RemoveAll(p)
+			os.RemoveAll(p + ".real")
 		}
 	}
 
